@@ -344,6 +344,8 @@ fn run_kind(ctx: &Ctx, out: &mut Out, cs: u64, d: usize, kn: Kn, kind: &str) {
     if kind == "pure" {
         return pure_case(out);
     }
+    // replayable marker for the CPU-time watchdog
+    crate::common::hang::mark(&json!({"property": P, "kind": kind, "case_seed": cs.to_string(), "D": d, "kernel": kn.name(), "tier": if ctx.tier == Tier::Thorough { "thorough" } else { "quick" }}).to_string());
     macro_rules! go {
         ($f:ident) => {
             match (d, kn) {
